@@ -17,8 +17,9 @@ PKT = {'RequestResponseRequester': 'KRRReq', 'RequestResponseResponder': 'KRRRes
 
 
 class Recorder:
-    def __init__(self, role='server', lenreq=False):
+    def __init__(self, role='server', lenreq=False, fragment_size=None):
         self.role = role
+        self.fragment_size = fragment_size
         self.loop = sim.new_loop()
         sim.patch_clock(self.loop)
         T = sim.make_transport_class()
@@ -137,14 +138,16 @@ class Recorder:
         H = self._handler_class()
         box = {}
         if self.role == 'server':
-            self.loop.run(lambda: box.setdefault('e', RSocketServer(self.t, handler_factory=H)))
+            self.loop.run(lambda: box.setdefault('e', RSocketServer(self.t, handler_factory=H,
+                                                                   fragment_size_bytes=self.fragment_size)))
             self.loop.settle()
             self.ep = box['e']
         else:
             def mk():
                 box['e'] = RSocketClient(single_transport_provider(self.t), handler_factory=H,
                                          keep_alive_period=timedelta(seconds=100000),
-                                         max_lifetime_period=timedelta(seconds=500000))
+                                         max_lifetime_period=timedelta(seconds=500000),
+                                         fragment_size_bytes=self.fragment_size)
                 asyncio.create_task(box['e'].connect())
             self.loop.run(mk)
             self.loop.settle()
